@@ -24,15 +24,18 @@ WHAT THE THEOREMS SAY FOR THE PROPERTY
   named (or `<dir>/<entry>` for a listing).
 * `overlong_rejected_not_truncated`, `overlong_no_path_effect`: over-long paths are rejected, the
   translated path is never a truncation and fits its buffer.
-* `transfer_dies_with_connection`: teardown releases every descriptor the connection holds.
+* `transfer_dies_with_connection`, `descriptors_accounted`: over every session, each descriptor the
+  file-transfer code opens is the recorded one or has been closed, and after teardown all are closed.
 * `tight_gate`, `tight_confined_to_root`: the extension acts only if enabled for the client,
   switched on and the client is not view-only, and every path it hands to libc is below its root.
 
-PARTIAL (spelled out where it occurs): `transfer_dies_with_connection` is proved for the
-descriptors recorded in the client state; that no handler forgets a descriptor without closing it
-is checked by the correspondence run (`fds` observations), not proved.
+PARTIAL (spelled out where it occurs): `transfer_dies_with_connection` / `descriptors_accounted`
+are proved at full strength for the UltraVNC transfer descriptor on clients that do not use the
+TightVNC extension; for the extension's two descriptors only `teardown_releases_recorded_partial`
+is proved (what the record holds is released), the no-silent-drop half is checked by the
+correspondence run (`fds` observations), not proved.
 -/
-import VncModel.FileXfer.Session
+import VncModel.FileXfer.Fds
 
 namespace VncModel.Props.C19
 open VncModel.FileXfer VncModel.Gen
@@ -301,39 +304,60 @@ theorem overlong_request_names_nothing (cfg : Cfg) (cp : Nat) (buffer : Bytes)
 
 /-! ## (4) a transfer never outlives its connection -/
 
-/-- the TightVNC client data never records a descriptor without the matching in-progress flag
-(the C code sets and clears them together) -/
-def TightWf (c : Client) : Prop :=
-  ∀ t, c.tight = some t → (t.up.fd.isSome → t.up.inProgress = true) ∧ (t.dn.fd.isSome → t.dn.inProgress = true)
+/-- **transfer_dies_with_connection** (UltraVNC built-in transfer, fixed code, full strength).
+For a client that does not use the TightVNC extension, started in a state where every descriptor
+opened so far is accounted for (`XInv`, e.g. a fresh client), after ANY sequence of inputs — requests
+and offers in any order and number (the descriptor is overwritten only after it was closed),
+packets, headers, aborts, chunk-sender calls, permission changes by the callback, peer close —
+followed by the teardown (peer gone, rfbClientConnectionGone): every descriptor the file-transfer
+code ever opened has been closed. -/
+theorem transfer_dies_with_connection (cfg : Cfg) (inputs : List Input) (s0 : S) (h0 : XInv s0) :
+    ∀ k, Got k (reapClient (peerGone (runSession cfg s0 inputs))) →
+      Closed k (reapClient (peerGone (runSession cfg s0 inputs))) := by
+  intro k hk
+  have hi := reapClient_xinv _ (peerGone_xinv _ (runSession_xinv cfg inputs s0 h0))
+  rcases hi.1 k hk with h1 | h1
+  · rw [teardown_xf_none] at h1; exact absurd h1 (by simp)
+  · exact h1
 
-/-- **transfer_dies_with_connection** (for the fixed code).  When the peer goes away and the event
-loop tears the client down (rfbCloseClient with the extension's close hook, then
-rfbClientConnectionGone), the client holds no descriptor any more.
-PARTIAL: this is about the descriptors recorded in the client state (`fileTransfer.fd`, the
-extension's uploadFD / downloadFD); that no handler overwrites or forgets a recorded descriptor
-without closing it (the second half of defect §11-e, fixed by `closeOld` / the upload-fd fix in the
-model) is visible in the model text and checked by the correspondence run's `fds` observations, but
-is not a theorem here. -/
-theorem transfer_dies_with_connection (s : S) :
-    (reapClient (peerGone s)).cl.fds = [] := by
-  unfold reapClient peerGone
-  have ht : ∀ s : S, (closeClient s).cl.tight = none := closeClient_tight
-  simp only [Client.fds]
-  split
-  · simp [setCl]
-  · rename_i hnone
-    simp only [emit_cl, ht, hnone]
-    rfl
+/-- and at every moment before that, an opened descriptor is the recorded one or has been closed:
+no handler forgets or overwrites a descriptor without closing it -/
+theorem descriptors_accounted (cfg : Cfg) (inputs : List Input) (s0 : S) (h0 : XInv s0) :
+    ∀ k, Got k (runSession cfg s0 inputs) →
+      (runSession cfg s0 inputs).cl.xf.fd = some k ∨ Closed k (runSession cfg s0 inputs) :=
+  (runSession_xinv cfg inputs s0 h0).1
 
-/-- and the descriptor of the UltraVNC transfer is closed by rfbClientConnectionGone -/
-theorem teardown_closes_transfer_fd (s : S) (k : Nat) (h : s.cl.xf.fd = some k) :
-    Ev.cleanup (.close k) "" ∈ (reapClient (peerGone s)).evs := by
-  unfold reapClient peerGone
-  simp only [closeClient_xf, setCl_cl, emit_cl, h]
-  simp [setCl, emit]
+example : XInv (⟨{}, 0, ["#1", "100"], 0, []⟩ : S) := ⟨fun k hk => by simp [Got] at hk, rfl, rfl⟩
+
+/-- **teardown_releases_recorded_partial** (all descriptors incl. the TightVNC extension's).
+After peer-gone + rfbClientConnectionGone the client record holds no descriptor, and the UltraVNC
+one was closed by the teardown.
+PARTIAL — full strength would be `transfer_dies_with_connection` for clients that use the TightVNC
+extension as well:
+  ∀ cfg inputs s0 (fresh), ∀ k, Got k (reapClient (peerGone (runSession cfg s0 inputs))) → Closed k (…)
+Not proved: that no TightVNC handler drops `uploadFD`/`downloadFD` without closing it (it needs the
+invariant "descriptor recorded ⇒ in-progress flag set" through all seven handlers).  The model has
+the close-before-overwrite of fixes/C19-tight-upload-fd-leak.diff, and the correspondence run's
+`fds` observations + the oracle check exactly this on every run. -/
+theorem teardown_releases_recorded_partial (s : S) :
+    (reapClient (peerGone s)).cl.fds = [] ∧
+    (∀ k, s.cl.xf.fd = some k → Ev.cleanup (.close k) "" ∈ (reapClient (peerGone s)).evs) := by
+  constructor
+  · unfold reapClient peerGone
+    have ht : ∀ s : S, (closeClient s).cl.tight = none := closeClient_tight
+    simp only [Client.fds]
+    split
+    · simp [setCl]
+    · rename_i hnone
+      simp only [emit_cl, ht, hnone]
+      rfl
+  · intro k h
+    unfold reapClient peerGone
+    simp only [closeClient_xf, setCl_cl, emit_cl, h]
+    simp [setCl, emit]
 
 example : (reapClient (peerGone ⟨{ xf := { fd := some 3, sending := true } }, 0, [], 3, []⟩)).cl.fds = [] :=
-  transfer_dies_with_connection _
+  (teardown_releases_recorded_partial _).1
 
 /-! ## (5) the TightVNC extension: gate and confinement -/
 
